@@ -393,6 +393,27 @@ func checkC09(c *Ctx) {
 			c.Count("roundtrips_ok", 1)
 			os.Remove(file)
 		}
+		// another Spec written under the same stem in the other encoding is another file:
+		// the first one is still there and reads back as it was written
+		if chance(r, 20) && class != "large" {
+			other := &specs.Spec{Version: "0.6.0", Kind: "other.org/dev", Devices: []specs.Device{{Name: "o", ContainerEdits: specs.ContainerEdits{Env: []string{"O=1"}}}}}
+			first, second := "y.json", "y.yaml"
+			if chance(r, 50) {
+				first, second = "y.yaml", pickStr(r, "y.json", "y.json")
+			}
+			e1 := cache.WriteSpec(cloneSpec(s), first)
+			// (whether the first file reads back at all is judged above, per encoding: here it
+			// only has to read back after the second write like it did before it)
+			rs0, rerr0 := cdi.ReadSpec(filepath.Join(sub, first), 0)
+			e2 := cache.WriteSpec(other, second)
+			rs, rerr := cdi.ReadSpec(filepath.Join(sub, first), 0)
+			c.Count("second_writes_under_the_same_stem", 1)
+			if e1 == nil && e2 == nil && rerr0 == nil && (rerr != nil || exactJSON(rs.Spec) != exactJSON(rs0.Spec)) {
+				cs.Violation("unreadable", map[string]string{"what": "sibling-written-afterwards"}, fmt.Sprintf("%s was written, then another Spec as %s: %s no longer reads back as written (err=%v)", first, second, first, rerr), nil)
+			}
+			os.Remove(filepath.Join(sub, first))
+			os.Remove(filepath.Join(sub, second))
+		}
 		// interchangeable encodings: both files loaded to Specs equal to the
 		// original (checked above), hence equal to each other; a difference
 		// has already been reported against the encoding that is off
